@@ -62,6 +62,9 @@ func rulePanics(c *Ctx, rule string) {
 		an.AllInstrs(f, func(in ssa.Instruction) {
 			if p, ok := in.(*ssa.Panic); ok && !isRangeFuncPanic(in) {
 				// (the panics of a "rangefunc.*" block are the compiler's own checks of the range-over-func protocol)
+				if deadNilAssertion(p) {
+					return // `if p == nil { panic }` on a pointer parameter that no caller can pass nil
+				}
 				out = append(out, p)
 			}
 		})
@@ -177,4 +180,90 @@ func ruleOneParser(c *Ctx, rule string) {
 	r2 := g.Reach([]*ssa.Function{add}, static)
 	_, ok1 := r2[newSeg]
 	c.R.Add(rule, c.fk(add), "registers-through:"+an.FuncKey(newSeg), c.P.Pos(add.Pos()), ok1, ifelse(ok1, an.Chain(r2, newSeg), "registration no longer builds its segments with NewSegment"))
+}
+
+// deadNilAssertion: the panic is behind the edge `p == nil` of a pointer parameter p whose argument is, at every
+// call site in the module, a value that cannot be nil (a fresh allocation, the result of a single-value type
+// assertion, or the result of a module function that only returns such values).
+func deadNilAssertion(p *ssa.Panic) bool {
+	f := p.Parent()
+	if f == nil || f.Parent() != nil {
+		return false
+	}
+	var guarded *ssa.Parameter
+	dom := an.DominatedByEdge(p, func(b *ssa.BasicBlock, succ int) bool {
+		cond, onTrue := an.EdgeCond(b, succ)
+		if cond == nil {
+			return false
+		}
+		x, k, eq, ok := an.CondAtom(cond)
+		if !ok || k.Value != nil || eq != onTrue {
+			return false
+		}
+		par, isPar := x.(*ssa.Parameter)
+		if !isPar {
+			return false
+		}
+		if _, isPtr := par.Type().Underlying().(*types.Pointer); !isPtr {
+			return false
+		}
+		guarded = par
+		return true
+	})
+	if !dom || guarded == nil {
+		return false
+	}
+	args := argsOfParam(guarded)
+	if len(args) == 0 {
+		return false
+	}
+	for _, a := range args {
+		if !knownNonNil(a, 0) {
+			return false
+		}
+	}
+	return true
+}
+
+func knownNonNil(v ssa.Value, depth int) bool {
+	if depth > 3 {
+		return false
+	}
+	switch x := v.(type) {
+	case *ssa.Alloc, *ssa.MakeClosure, *ssa.Function, *ssa.Global, *ssa.MakeMap, *ssa.MakeSlice:
+		return true
+	case *ssa.TypeAssert:
+		return !x.CommaOk
+	case *ssa.Phi:
+		for _, e := range x.Edges {
+			if !knownNonNil(e, depth+1) {
+				return false
+			}
+		}
+		return len(x.Edges) > 0
+	case *ssa.Parameter:
+		args := argsOfParam(x)
+		if len(args) == 0 {
+			return false
+		}
+		for _, a := range args {
+			if !knownNonNil(a, depth+1) {
+				return false
+			}
+		}
+		return true
+	case *ssa.Call:
+		g := an.StaticCallee(&x.Call)
+		if g == nil || !an.InModule(g) || len(g.Blocks) == 0 {
+			return false
+		}
+		rets := an.Returns(g)
+		for _, r := range rets {
+			if len(r.Results) != 1 || !knownNonNil(r.Results[0], depth+1) {
+				return false
+			}
+		}
+		return len(rets) > 0
+	}
+	return false
 }
